@@ -227,6 +227,10 @@ def main(argv):
                     ck.violation("flux:" + name, "heat flux density %.9g, closed form %.9g" % (Fy, cf["flux"]), dict(files=run.files()))
             else:
                 B1, B2 = pv[1], pv[2]
+                if B1 is None or B2 is None:
+                    # femmcli prints nothing for a NaN complex number
+                    ck.violation("field-nan:" + name, "the flux density at %r comes back empty (NaN) (%s, %s, f=%g)" % (cf["probe"], p.units, p.ptype, p.freq), dict(files=run.files(), values=pv))
+                    continue
                 ferr = math.sqrt(abs(B1 - cf["field"][0]) ** 2 + abs(B2 - cf["field"][1]) ** 2) / max(abs(cf["field"][0]), 1e-300)
                 if out.get("W") and out["W"][0] is not None:
                     werr = abs(out["W"][0] - cf["energy"]) / abs(cf["energy"])
